@@ -139,6 +139,370 @@ theorem spec_ok (timeout : Nat) (obs : List Obs) (o : Obs) :
     · obtain ⟨t0, h1, h2⟩ := not_before_timeout timeout ht obs o hc
       right; rw [h1]; simpa using h2
 
+/-! ## The whole connection: every op history (end-to-end model, compared op by op with the real
+`Connection::poll`) -/
+
+theorem busyS_false_iff (c : CS) :
+    busyS c = false ↔ c.hq + c.req + c.negOutW + c.negOutR + c.negInW + c.negInR + c.held = 0 := by
+  simp [busyS]
+
+theorem busyS_true_iff (c : CS) :
+    busyS c = true ↔ 0 < c.hq + c.req + c.negOutW + c.negOutR + c.negInW + c.negInR + c.held := by
+  simp [busyS]
+
+theorem busyS_absorb (c : CS) : busyS (absorb c) = busyS c := by
+  simp only [busyS, absorb]
+  congr 1
+  apply propext
+  constructor <;> intro h <;> omega
+
+theorem idle_obsOf_absorb (c : CS) : idle (obsOf (absorb c)) = !busyS c := by
+  rw [← busyS_absorb]
+  simp only [idle, obsOf, absorb, hasNoActiveStreams, busyS]
+  by_cases h : 0 < 0 + (c.req + c.hq) + c.negOutW + 0 + c.negInW + 0 + (c.held + c.negOutR + c.negInR)
+  · simp only [h, decide_true, Bool.not_true]
+    simp only [Bool.and_eq_false_iff, beq_eq_false_iff_ne, ne_eq]
+    omega
+  · simp only [h, decide_false, Bool.not_false]
+    simp only [Bool.and_eq_true, beq_iff_eq]
+    omega
+
+/-- a connection with a keep-alive stream condition is never closed by a poll, however many loop
+iterations it takes -/
+theorem busy_no_close (fuel : Nat) (c : CS) (h : busyS c = true) : (pollLoop fuel c).2 = .pending := by
+  induction fuel generalizing c with
+  | zero => rfl
+  | succ fuel ih =>
+    have hidle : idle (obsOf (absorb c)) = false := by rw [idle_obsOf_absorb, h]; rfl
+    simp only [pollLoop, pollShutdown, hidle, Bool.false_eq_true, ↓reduceIte]
+    split
+    · exact ih _ (by rw [busyS_true_iff]; simp only [grantOut]; omega)
+    · split
+      · exact ih _ (by rw [busyS_true_iff]; simp only [acceptIn]; omega)
+      · rfl
+
+/-- invariant of the connection machine: an armed timer is never stale — while no stream condition
+holds its deadline is at least `lastBusy + timeout`; and no stream is held while a shutdown is planned -/
+structure CInv (c : CS) : Prop where
+  fresh : busyS c = false → ∀ d, c.sh = .later d → c.lastBusy + c.timeout ≤ d
+  past : c.lastBusy ≤ c.now
+  noHeld : c.sh ≠ .none → c.held = 0
+
+theorem cinv_init (t m : Nat) : CInv (cinit t m) :=
+  ⟨by intro _ d h; simp [cinit] at h, by simp [cinit], by intro h; simp [cinit] at h⟩
+
+theorem cinv_touch (c : CS) (h : CInv c) : CInv (touch c) := by
+  unfold touch
+  split
+  · rename_i hb
+    exact ⟨by intro hb'; simp [busyS] at hb hb'; omega, by simp, h.noHeld⟩
+  · exact h
+
+/-- the shutdown value the block stores when the connection is idle -/
+def nextSh (timeout : Nat) (sh : Sh) (ka : Bool) (now : Nat) : Sh :=
+  match computeNew ka sh timeout now with
+  | some n => n
+  | none => sh
+
+theorem pollShutdown_busy (t : Nat) (sh : Sh) (o : Obs) (h : idle o = false) :
+    pollShutdown t sh o = (.none, false) := by
+  simp [pollShutdown, h]
+
+theorem pollShutdown_idle (t : Nat) (sh : Sh) (o : Obs) (h : idle o = true) :
+    (pollShutdown t sh o).1 = nextSh t sh o.keepAlive o.now := by
+  unfold pollShutdown nextSh
+  simp only [h, ↓reduceIte]
+  split <;> rfl
+
+theorem nextSh_later (t : Nat) (sh : Sh) (ka : Bool) (now d : Nat) (h : nextSh t sh ka now = .later d) :
+    ka = false ∧ t ≠ 0 ∧ (sh = .later d ∨ d = now + t) := by
+  unfold nextSh at h
+  by_cases ht : t = 0
+  · subst ht; cases ka <;> cases sh <;> simp [computeNew] at h
+  · have hb0 : (t == 0) = false := by simpa using ht
+    cases ka <;> cases sh <;> simp [computeNew, hb0] at h
+    · exact ⟨rfl, ht, Or.inr h.symm⟩
+    · exact ⟨rfl, ht, Or.inr h.symm⟩
+    · exact ⟨rfl, ht, Or.inl (by rw [h])⟩
+
+theorem close_idle (t : Nat) (sh : Sh) (o : Obs) (h : idle o = true)
+    (hc : (pollShutdown t sh o).2 = true) :
+    o.keepAlive = false ∧ (t = 0 ∨ ∃ d, nextSh t sh o.keepAlive o.now = .later d ∧ d ≤ o.now) := by
+  have hka : o.keepAlive = false := (no_close_unless_idle t sh o hc).2.2.2.2
+  refine ⟨hka, ?_⟩
+  by_cases ht : t = 0
+  · exact Or.inl ht
+  · right
+    have hb0 : (t == 0) = false := by simpa using ht
+    unfold pollShutdown at hc
+    simp only [h, ↓reduceIte, hka] at hc
+    unfold nextSh
+    rw [hka]
+    cases sh with
+    | none =>
+      simp only [computeNew, hb0, Bool.false_eq_true, ↓reduceIte, Bool.and_eq_true, decide_eq_true_eq] at hc ⊢
+      exact ⟨_, rfl, hc.2⟩
+    | asap =>
+      simp only [computeNew, hb0, Bool.false_eq_true, ↓reduceIte, Bool.and_eq_true, decide_eq_true_eq] at hc ⊢
+      exact ⟨_, rfl, hc.2⟩
+    | later d0 =>
+      simp only [computeNew, hb0, Bool.false_eq_true, ↓reduceIte, Bool.and_eq_true, decide_eq_true_eq] at hc ⊢
+      exact ⟨_, rfl, hc.2⟩
+
+theorem cinv_afterBlock (c : CS) (h : CInv c) : CInv (afterBlock c) := by
+  have hidle := idle_obsOf_absorb c
+  have hbA := busyS_absorb c
+  cases hbusy : busyS c with
+  | true =>
+    have hi : idle (obsOf (absorb c)) = false := by rw [hidle, hbusy]; rfl
+    have hsh : (afterBlock c).sh = .none := by
+      show (pollShutdown _ _ _).1 = _
+      rw [pollShutdown_busy _ _ _ hi]
+    have hlb : (afterBlock c).lastBusy = c.now := by
+      show (if busyS (absorb c) || c.keepAlive then c.now else c.lastBusy) = _
+      rw [hbA, hbusy]; rfl
+    refine ⟨?_, ?_, ?_⟩
+    · intro _ d hd; rw [hsh] at hd; cases hd
+    · rw [hlb]; exact Nat.le_refl _
+    · intro hne; exact absurd hsh hne
+  | false =>
+    have hi : idle (obsOf (absorb c)) = true := by rw [hidle, hbusy]; rfl
+    have hz := (busyS_false_iff c).1 hbusy
+    have hsh : (afterBlock c).sh = nextSh c.timeout c.sh c.keepAlive c.now := by
+      show (pollShutdown _ _ _).1 = _
+      rw [pollShutdown_idle _ _ _ hi]; rfl
+    have hlb : (afterBlock c).lastBusy = if c.keepAlive then c.now else c.lastBusy := by
+      show (if busyS (absorb c) || c.keepAlive then c.now else c.lastBusy) = _
+      rw [hbA, hbusy]; simp
+    refine ⟨?_, ?_, ?_⟩
+    · intro _ d hd
+      rw [hsh] at hd
+      obtain ⟨hka, ht, hor⟩ := nextSh_later _ _ _ _ _ hd
+      rw [hlb, hka]
+      simp only [Bool.false_eq_true, ↓reduceIte]
+      show c.lastBusy + c.timeout ≤ d
+      rcases hor with h1 | h1
+      · exact h.fresh hbusy d h1
+      · have := h.past; omega
+    · rw [hlb]
+      show _ ≤ c.now
+      split
+      · exact Nat.le_refl _
+      · exact h.past
+    · intro _
+      show c.held + c.negOutR + c.negInR = 0
+      omega
+
+theorem pollLoop_succ (fuel : Nat) (c : CS) :
+    pollLoop (fuel + 1) c =
+      (if (pollShutdown (absorb c).timeout (absorb c).sh (obsOf (absorb c))).2 then
+        ({ afterBlock c with closed := true }, .closed)
+      else if 0 < (afterBlock c).req && 0 < (afterBlock c).outTokens then
+        pollLoop fuel (grantOut (afterBlock c))
+      else if (afterBlock c).negInW + (afterBlock c).negInR < (afterBlock c).maxNegIn
+          && 0 < (afterBlock c).inbWaiting then
+        pollLoop fuel (acceptIn (afterBlock c))
+      else (afterBlock c, .pending)) := rfl
+
+theorem busyS_grantOut (c : CS) : busyS (grantOut c) = true := by
+  rw [busyS_true_iff]; simp only [grantOut]; omega
+
+theorem busyS_acceptIn (c : CS) : busyS (acceptIn c) = true := by
+  rw [busyS_true_iff]; simp only [acceptIn]; omega
+
+theorem cinv_pollLoop (fuel : Nat) (c : CS) (h : CInv c) : CInv (pollLoop fuel c).1 := by
+  induction fuel generalizing c with
+  | zero => exact h
+  | succ fuel ih =>
+    have ha := cinv_afterBlock c h
+    rw [pollLoop_succ]
+    split
+    · exact ⟨ha.fresh, ha.past, ha.noHeld⟩
+    · split
+      · apply ih
+        refine ⟨?_, ha.past, ha.noHeld⟩
+        intro hb; rw [busyS_grantOut] at hb; cases hb
+      · split
+        · apply ih
+          refine ⟨?_, ha.past, ha.noHeld⟩
+          intro hb; rw [busyS_acceptIn] at hb; cases hb
+        · exact ha
+
+theorem cinv_applyOp (c : CS) (o : COp) (h : CInv c) : CInv (applyOp c o) := by
+  have hf := h.fresh; have hp := h.past; have hn := h.noHeld
+  cases o with
+  | ka b => exact ⟨hf, hp, hn⟩
+  | req => exact ⟨by intro hb; have := (busyS_false_iff _).1 hb; simp only [applyOp] at this; exfalso; omega, hp, hn⟩
+  | allow => exact ⟨hf, hp, hn⟩
+  | inb => exact ⟨hf, hp, hn⟩
+  | poll => exact h
+  | adv d => exact ⟨fun hb d' hd => hf hb d' hd, by show c.lastBusy ≤ c.now + d; omega, hn⟩
+  | respOut =>
+    simp only [applyOp]; split
+    · rename_i hw
+      refine ⟨?_, hp, hn⟩
+      intro hb; have := (busyS_false_iff _).1 hb; simp only at this; exfalso; omega
+    · exact h
+  | respIn =>
+    simp only [applyOp]; split
+    · rename_i hw
+      refine ⟨?_, hp, hn⟩
+      intro hb; have := (busyS_false_iff _).1 hb; simp only at this; exfalso; omega
+    · exact h
+  | dropIgn =>
+    simp only [applyOp]; split
+    · exact ⟨hf, hp, hn⟩
+    · exact h
+  | drop =>
+    simp only [applyOp]; split
+    · rename_i hh
+      have hsh : c.sh = .none := by
+        cases hs : c.sh with
+        | none => rfl
+        | asap => have := hn (by rw [hs]; simp); omega
+        | later d => have := hn (by rw [hs]; simp); omega
+      exact ⟨by intro _ d hd; simp [hsh] at hd, hp, by intro hne; exact absurd hsh hne⟩
+    · exact h
+  | ignore =>
+    simp only [applyOp]; split
+    · rename_i hh
+      have hsh : c.sh = .none := by
+        cases hs : c.sh with
+        | none => rfl
+        | asap => have := hn (by rw [hs]; simp); omega
+        | later d => have := hn (by rw [hs]; simp); omega
+      exact ⟨by intro _ d hd; simp [hsh] at hd, hp, by intro hne; exact absurd hsh hne⟩
+    · exact h
+
+theorem cinv_cstep (c : CS) (o : COp) (h : CInv c) : CInv (cstep c o).1 := by
+  unfold cstep
+  split
+  · exact h
+  · cases o with
+    | poll => exact cinv_touch _ (cinv_pollLoop _ c h)
+    | ka b => exact cinv_touch _ (cinv_applyOp c _ h)
+    | req => exact cinv_touch _ (cinv_applyOp c _ h)
+    | allow => exact cinv_touch _ (cinv_applyOp c _ h)
+    | respOut => exact cinv_touch _ (cinv_applyOp c _ h)
+    | inb => exact cinv_touch _ (cinv_applyOp c _ h)
+    | respIn => exact cinv_touch _ (cinv_applyOp c _ h)
+    | drop => exact cinv_touch _ (cinv_applyOp c _ h)
+    | ignore => exact cinv_touch _ (cinv_applyOp c _ h)
+    | dropIgn => exact cinv_touch _ (cinv_applyOp c _ h)
+    | adv d => exact cinv_touch _ (cinv_applyOp c _ h)
+
+/-- the state after an op history, from `Connection::new` -/
+def creach (timeout maxNegIn : Nat) (ops : List COp) : CS :=
+  Machine.exec cstep (cinit timeout maxNegIn) ops
+
+theorem cinv_reach (t m : Nat) (ops : List COp) : CInv (creach t m ops) :=
+  Machine.invariant_of_step cstep CInv cinv_cstep ops _ (cinv_init t m)
+
+/-- one poll from an invariant state: a close needs no stream condition, no keep-alive, and a full
+timeout since `lastBusy` -/
+theorem close_sound (c : CS) (h : CInv c) (fuel : Nat)
+    (hc : (pollLoop (fuel + 1) c).2 = .closed) :
+    busyS c = false ∧ c.keepAlive = false ∧ c.lastBusy + c.timeout ≤ c.now := by
+  have hbusy : busyS c = false := by
+    cases hb : busyS c with
+    | false => rfl
+    | true => rw [busy_no_close _ c hb] at hc; cases hc
+  have hi : idle (obsOf (absorb c)) = true := by rw [idle_obsOf_absorb, hbusy]; rfl
+  have hz := (busyS_false_iff c).1 hbusy
+  -- after the first block the state is busy (or the poll ended), so the close happened in the first block
+  rw [pollLoop_succ] at hc
+  have hfirst : (pollShutdown (absorb c).timeout (absorb c).sh (obsOf (absorb c))).2 = true := by
+    cases hps : (pollShutdown (absorb c).timeout (absorb c).sh (obsOf (absorb c))).2 with
+    | true => rfl
+    | false =>
+      rw [hps] at hc
+      simp only [Bool.false_eq_true, ↓reduceIte] at hc
+      split at hc
+      · rw [busy_no_close _ _ (busyS_grantOut _)] at hc; cases hc
+      · split at hc
+        · rw [busy_no_close _ _ (busyS_acceptIn _)] at hc; cases hc
+        · cases hc
+  obtain ⟨hka, hor⟩ := close_idle _ _ _ hi hfirst
+  have hka' : c.keepAlive = false := hka
+  refine ⟨hbusy, hka', ?_⟩
+  have hp := h.past
+  rcases hor with ht | ⟨d, hn, hd⟩
+  · have ht' : c.timeout = 0 := ht
+    omega
+  · have hn' : nextSh c.timeout c.sh c.keepAlive c.now = .later d := hn
+    have hd' : d ≤ c.now := hd
+    obtain ⟨_, ht, hor⟩ := nextSh_later _ _ _ _ _ hn'
+    rcases hor with h1 | h1
+    · have := h.fresh hbusy d h1; omega
+    · omega
+
+/-- **C10.close_after_last_busy** — for EVERY history of ops (keep-alive flips, outbound requests,
+muxer grants, remote answers, inbound streams, stream drops / `ignore_for_keep_alive`, clock
+advances, polls, in any order): if the next `Connection::poll` returns `KeepAliveTimeout`, then at that
+poll no stream is active-and-counted, negotiating or requested, the handler does not ask for
+keep-alive, and `now ≥ lastBusy + idle_timeout`, where `lastBusy` is the last moment any of these
+conditions held. -/
+theorem close_after_last_busy (timeout maxNegIn : Nat) (ops : List COp)
+    (hc : (cstep (creach timeout maxNegIn ops) .poll).2 = some .closed) :
+    busyS (creach timeout maxNegIn ops) = false ∧
+    (creach timeout maxNegIn ops).keepAlive = false ∧
+    (creach timeout maxNegIn ops).lastBusy + timeout ≤ (creach timeout maxNegIn ops).now := by
+  have hinv := cinv_reach timeout maxNegIn ops
+  have hto : (creach timeout maxNegIn ops).timeout = timeout := by
+    unfold creach
+    have : ∀ (c : CS) (ops : List COp), (Machine.exec cstep c ops).timeout = c.timeout := by
+      intro c ops
+      induction ops generalizing c with
+      | nil => rfl
+      | cons o r ih =>
+        simp only [Machine.exec, List.foldl_cons] at ih ⊢
+        rw [ih]
+        have htouch : ∀ c : CS, (touch c).timeout = c.timeout := by intro c; unfold touch; split <;> rfl
+        have hloop : ∀ (f : Nat) (c : CS), (pollLoop f c).1.timeout = c.timeout := by
+          intro f
+          induction f with
+          | zero => intro c; rfl
+          | succ f ihf =>
+            intro c
+            rw [pollLoop_succ]
+            repeat' split
+            · rfl
+            · rw [ihf]; rfl
+            · rw [ihf]; rfl
+            · rfl
+        unfold cstep
+        split
+        · rfl
+        · cases o <;> simp only [htouch, hloop, applyOp] <;> (try split) <;> rfl
+    exact this _ ops
+  generalize creach timeout maxNegIn ops = c at hc hinv hto
+  unfold cstep at hc
+  split at hc
+  · cases hc
+  · simp only [Option.some.injEq] at hc
+    have := close_sound c hinv (c.hq + c.req + c.inbWaiting + 1) hc
+    rw [hto] at this
+    exact this
+
+/-- **Spec accepts the model (end-to-end)** -/
+theorem spec_close_ok (timeout maxNegIn : Nat) (ops : List COp) :
+    specClose timeout (busyS (creach timeout maxNegIn ops)) (creach timeout maxNegIn ops).keepAlive
+      (creach timeout maxNegIn ops).lastBusy (creach timeout maxNegIn ops).now
+      ((cstep (creach timeout maxNegIn ops) .poll).2 == some .closed) = true := by
+  unfold specClose
+  cases hc : ((cstep (creach timeout maxNegIn ops) .poll).2 == some .closed) with
+  | false => rfl
+  | true =>
+    have hc' : (cstep (creach timeout maxNegIn ops) .poll).2 = some .closed := by simpa using hc
+    obtain ⟨h1, h2, h3⟩ := close_after_last_busy timeout maxNegIn ops hc'
+    simp [h1, h2, h3]
+
+/-- the scenario of the seeded defect: idle (timer armed at 0) → busy past the deadline → idle again.
+The model re-arms the timer; the connection is NOT closed at the first idle poll after the busy period. -/
+example : ((Machine.run cstep (cinit 5 2)
+    [.poll, .req, .poll, .adv 6, .allow, .poll, .respOut, .poll, .drop, .poll, .adv 4, .poll, .adv 1, .poll]).2.filterMap id)
+    = [.pending, .pending, .pending, .pending, .pending, .pending, .closed] := by decide
+
 /-! non-vacuity: a connection that does close after exactly the timeout, and one kept open by a stream -/
 example : (Machine.run (step 10) {} [⟨0,0,0,0,false,5,false⟩, ⟨0,0,0,0,false,14,true⟩, ⟨0,0,0,0,false,15,true⟩]).2
     = [false, false, true] := by decide
@@ -153,3 +517,7 @@ end C10
 #print axioms C10.not_before_timeout
 #print axioms C10.streak_some
 #print axioms C10.spec_ok
+#print axioms C10.close_after_last_busy
+#print axioms C10.spec_close_ok
+#print axioms C10.busy_no_close
+#print axioms C10.cinv_reach
